@@ -15,7 +15,7 @@ fuel exceeds the rank of the element called: every `_parse` call returns a match
                   (`manyLoop`: `if l ≤ loc then hang`, `ignoreOne`: `if l ≤ loc then hang`) for the calls the model makes
                   there.  SkipTo's `ignore=` expression needs no condition: its loop (`ignLoop`) leaves on a zero-width match;
 * `acyclic_terminates`   fuel `> r id` suffices, for every input, location and flags;
-* `parseString_terminates` the same for parse_string (also with parse_all);
+* `parseString_terminates`, `scanString_terminates` the same for parse_string (also with parse_all) and scan_string;
 * `advancing_of_nonempty` a simpler sufficient condition for `Advancing`.
 -/
 namespace PP.Parse
@@ -111,6 +111,23 @@ theorem parseString_terminates (g : Grammar) (r : Nat → Nat) (hr : rankOk g r 
   | fail c l => simp
   | idx => simp
   | hang => exact absurd hp h0
+
+/-- **scan_string terminates** (hence search_string / transform_string / split, which drain it): no `hang` escapes the
+    generator, for every max_matches, `always_skip_whitespace` and `overlap` -/
+theorem scanString_terminates (g : Grammar) (r : Nat → Nat) (hr : rankOk g r = true) (s : List Char)
+    (ha : Advancing g s) (root : Nat) (hroot : root < g.length) (fuel : Nat) (hf : r root < fuel) (mm : Nat)
+    (sk ov : Bool) : (scanString (parse g s fuel) g root s mm sk ov).exc ≠ some .hang := by
+  have hg : g[root]? = some g[root] := List.getElem?_eq_getElem hroot
+  unfold scanString
+  rw [hg]
+  simp only
+  have hA := ha fuel root g[root] hg
+  refine scanLoop_nohang g[root] root s sk ov (parse_bndAll g s fuel) ?_ ?_ _ _ _ _ (by omega) (by omega)
+  · intro e he
+    have hc : e ∈ (g[root]).children := by simp [Node.children, he]
+    have := rankOk_spec hr hg hc
+    exact ⟨acyclic_terminates g r hr s ha fuel e this.1 (by omega), hA.1 e he⟩
+  · exact acyclic_terminates g r hr s ha fuel root hroot hf
 
 /-- a simpler sufficient condition: every repetition body and every ignorable of the table, whenever it matches (at any
     fuel, location, flags), ends strictly after the location it was called at -/
@@ -213,6 +230,9 @@ example (s : List Char) (i : Nat) (hi : i < 4) (loc : Nat) (a c : Bool) : parse 
 /-- and so does parse_string(parse_all=True) from the root -/
 example (s : List Char) : parseString (parse exG s 4) exG 3 [' ', '\t', '\n', '\r'] s true ≠ .hang :=
   parseString_terminates exG id (by decide) s _ (exG_advancing s) 3 (by decide) 4 (by decide) true
+
+example (s : List Char) (mm : Nat) (sk ov : Bool) : (scanString (parse exG s 4) exG 3 s mm sk ov).exc ≠ some .hang :=
+  scanString_terminates exG id (by decide) s (exG_advancing s) 3 (by decide) 4 (by decide) mm sk ov
 
 /-- the model does compute on it: "ab xyxy" is matched up to its end, 7 -/
 example : endOf (parse exG "ab xyxy".toList 4 3 0 true true) = some 7 := by
